@@ -97,3 +97,8 @@ def outsider(sim, plan, live, done):
       emit(logging.getLogger(logs.RECORD_LOGGER_PREFIX), shape, n)
     else:
       raise AssertionError(kind)
+
+
+def c20_noop_phase(test):
+  """The one phase of the Test that C20 executes to look at the config snapshot in its record."""
+  test.logger.debug('c20 snapshot run')
